@@ -6,7 +6,8 @@
    clauses are decided by the correspondence check and the behavioural oracle of harness/c16.py. *)
 From Coq Require Import NArith List Bool String.
 From Verif Require Import Livepatch.Heap Livepatch.Patch Livepatch.Xreload
-                          Livepatch.PatchProofs Livepatch.XreloadProofs.
+                          Livepatch.PatchProofs Livepatch.XreloadProofs Livepatch.FrameProofs
+                          Livepatch.ShapeProofs.
 Import ListNotations.
 
 (* rollback: the new source raises at any statement index (exec oracle = ExecFail idx h1, whose frame
@@ -78,3 +79,67 @@ Theorem C16_identity_kept_literal_refuted :
     forall rec stack, patch_function rec (mkSt h []) stack fo fn = Ok (mkSt h []) fn /\ fn <> fo.
 Proof. exact identity_kept_literal_refuted. Qed.
 Print Assumptions C16_identity_kept_literal_refuted.
+
+(* frame: whatever livepatch does, a dict that is on the visit stack (i.e. that an enclosing
+   _livepatch__dict is working on) is not written by the nested call - cycles through the module dict,
+   instance dicts and function dicts are cut *)
+Theorem C16_frame_visit_stack : forall modname newmod_dict bases_ok nm fuel s stack old new s' r,
+  lp modname newmod_dict bases_ok nm fuel s stack old new = Ok s' r ->
+  forall d e, In d stack -> lookup (hp s) d = Some (ODict e) -> lookup (hp s') d = Some (ODict e).
+Proof. exact lp_frame_plain. Qed.
+Print Assumptions C16_frame_visit_stack.
+
+(* dict_shape: a successful patch returns the old module, and its __dict__ object has exactly the keys
+   of the new module's dict: deleted names are gone, new names are present (xreload then adds
+   __loadtime__) *)
+Theorem C16_dict_shape : forall modname newmod_dict bases_ok nm fuel h m_old m_new d1 d2 eo en s' r,
+  lookup h m_old = Some (OModule d1) -> lookup h m_new = Some (OModule d2) ->
+  m_old <> m_new -> d1 <> d2 ->
+  lookup h d1 = Some (ODict eo) -> lookup h d2 = Some (ODict en) ->
+  livepatch_module modname newmod_dict bases_ok nm fuel h m_old m_new = Ok s' r ->
+  r = m_old /\
+  exists e', lookup (hp s') d1 = Some (ODict e') /\ forall k, In k (akeys e') <-> In k (akeys en).
+Proof. exact dict_shape. Qed.
+Print Assumptions C16_dict_shape.
+
+(* module_dunders (F27, repaired code): an entry that is the same object in the old module's dict and
+   in the scratch module's dict (after the repair: __package__, __loader__, __spec__, __cached__,
+   __path__) is that object afterwards.  Hypothesis: nested calls do not write the scratch module's
+   dict (evaluated by the harness on every run). *)
+Theorem C16_module_dunders_partial : forall modname newmod_dict bases_ok nm fuel h m_old m_new d1 d2 eo en s' r k0 v,
+  lookup h m_old = Some (OModule d1) -> lookup h m_new = Some (OModule d2) ->
+  m_old <> m_new -> d1 <> d2 ->
+  lookup h d1 = Some (ODict eo) -> lookup h d2 = Some (ODict en) ->
+  aget eo k0 = Some v -> aget en k0 = Some v ->
+  (forall f s0 st a b s1 r1, lp modname newmod_dict bases_ok nm f s0 st a b = Ok s1 r1 ->
+                             lookup (hp s1) d2 = lookup (hp s0) d2) ->
+  livepatch_module modname newmod_dict bases_ok nm fuel h m_old m_new = Ok s' r ->
+  exists e', lookup (hp s') d1 = Some (ODict e') /\ aget e' k0 = Some v.
+Proof. exact module_dunders. Qed.
+Print Assumptions C16_module_dunders_partial.
+
+(* non-vacuity: a two-function module (f kept and re-coded, g replaced because its cell value differs,
+   h deleted, k added) patched by the model *)
+Definition nv_heap : heap :=
+  [ (1, OModule 3); (2, OModule 4);
+    (3, ODict [(20, 10); (21, 11); (22, 12)]);              (* old: f, g, h *)
+    (4, ODict [(20, 13); (21, 14); (23, 15)]);              (* new: f, g, k *)
+    (10, OFunc 20 (Some 9) 100 101 102 50 [] []);
+    (11, OFunc 30 (Some 9) 103 101 102 51 [104] [31]);
+    (12, OFunc 22 (Some 9) 105 101 102 52 [] []);
+    (13, OFunc 20 (Some 9) 200 101 102 53 [] []);
+    (14, OFunc 30 (Some 9) 103 101 102 54 [204] [31]);
+    (15, OFunc 23 (Some 9) 205 101 102 55 [] []);
+    (50, ODict []); (51, ODict []); (52, ODict []); (53, ODict []); (54, ODict []); (55, ODict []);
+    (100, OPrim 5 1); (101, OPrim 6 2); (102, OPrim 6 2); (103, OPrim 5 3); (105, OPrim 5 4);
+    (200, OPrim 5 5); (205, OPrim 5 6); (104, OPrim 7 31); (204, OPrim 7 32) ]%N.
+
+Example C16_nonvacuous :
+  match livepatch_module 9%N 4%N (fun _ _ => true) (mkNames 90 91 92 93)%N 30 nv_heap 1%N 2%N with
+  | Ok s r =>
+      r = 1%N /\
+      lookup (hp s) 3%N = Some (ODict [(20, 10); (21, 14); (23, 15)])%N /\      (* f kept, g replaced, h gone, k new *)
+      lookup (hp s) 10%N = Some (OFunc 20 (Some 9) 200 101 102 50 [] [])%N       (* f has the new code *)
+  | _ => False
+  end.
+Proof. vm_compute. repeat split. Qed.
